@@ -533,36 +533,39 @@ func genPipeBodies(r *Rng, i int, tier string) string {
 
 func init() {
 	pb := *&Driver{
-		Name:     "pipebodies",
-		Header:   "From ZenoV Require Import Lib.Harness Tree.Item Stage.Pass Stage.PassHarness Pipe.PipeHarness.\nOpen Scope N_scope.\n",
-		CaseType: "ecase",
-		Footer:   stdFooter,
-		Rule:     "non-trivial: the crawl of a site with large / boundary-sized bodies ran to quiescence, a seed was fed back and a tree reached >= 3 nodes",
-		Gen:      genPipeBodies,
-		Exec:     execPipe,
-		Parallel: 6,
+		Name:           "pipebodies",
+		Header:         "From ZenoV Require Import Lib.Harness Tree.Item Stage.Pass Stage.PassHarness Pipe.PipeHarness.\nOpen Scope N_scope.\n",
+		CaseType:       "ecase",
+		Footer:         stdFooter,
+		Rule:           "non-trivial: the crawl of a site with large / boundary-sized bodies ran to quiescence, a seed was fed back and a tree reached >= 3 nodes",
+		Gen:            genPipeBodies,
+		Exec:           execPipe,
+		Parallel:       6,
+		CaseTimeoutSec: 900,
 	}
 	register(&pb)
 	pd := *&Driver{
-		Name:     "pipeadv",
-		Header:   "From ZenoV Require Import Lib.Harness Tree.Item Stage.Pass Stage.PassHarness Pipe.PipeHarness.\nOpen Scope N_scope.\n",
-		CaseType: "ecase",
-		Footer:   stdFooter,
-		Rule:     "non-trivial: the crawl of an adversarial site ran to quiescence, at least one seed was fed back and a tree reached >= 3 nodes",
-		Gen:      genPipeAdv,
-		Exec:     execPipe,
-		Parallel: 6,
+		Name:           "pipeadv",
+		Header:         "From ZenoV Require Import Lib.Harness Tree.Item Stage.Pass Stage.PassHarness Pipe.PipeHarness.\nOpen Scope N_scope.\n",
+		CaseType:       "ecase",
+		Footer:         stdFooter,
+		Rule:           "non-trivial: the crawl of an adversarial site ran to quiescence, at least one seed was fed back and a tree reached >= 3 nodes",
+		Gen:            genPipeAdv,
+		Exec:           execPipe,
+		Parallel:       6,
+		CaseTimeoutSec: 900,
 	}
 	register(&pd)
 	register(&Driver{
-		Name:     "pipe",
-		Header:   "From ZenoV Require Import Lib.Harness Tree.Item Stage.Pass Stage.PassHarness Pipe.PipeHarness.\nOpen Scope N_scope.\n",
-		CaseType: "ecase",
-		Footer:   stdFooter,
-		Rule:     "non-trivial: the crawl ran to quiescence, at least one seed was fed back (>= 2 passes) and a tree reached >= 3 nodes; distinct by input line",
-		Gen:      genPipe,
-		Exec:     execPipe,
-		Parallel: 6,
+		Name:           "pipe",
+		Header:         "From ZenoV Require Import Lib.Harness Tree.Item Stage.Pass Stage.PassHarness Pipe.PipeHarness.\nOpen Scope N_scope.\n",
+		CaseType:       "ecase",
+		Footer:         stdFooter,
+		Rule:           "non-trivial: the crawl ran to quiescence, at least one seed was fed back (>= 2 passes) and a tree reached >= 3 nodes; distinct by input line",
+		Gen:            genPipe,
+		Exec:           execPipe,
+		Parallel:       6,
+		CaseTimeoutSec: 900,
 		Shrink: func(input string) []string {
 			kv := parseKV(input)
 			var out []string
